@@ -558,15 +558,15 @@ impl<'a> DataOperator<'a> {
                 )),
             },
             DataOperator::EqualsInt(n) => Ok(format!("= {}", n)),
-            DataOperator::EqualsFloat(n) => Ok(format!("= {:?}", n)),
+            DataOperator::EqualsFloat(n) => Ok(format!("= {}", float_to_querystring(*n))),
             DataOperator::GreaterThan(n) => Ok(format!("> {}", n)),
             DataOperator::GreaterThanOrEqual(n) => Ok(format!(">= {}", n)),
             DataOperator::LessThan(n) => Ok(format!("< {}", n)),
             DataOperator::LessThanOrEqual(n) => Ok(format!("<= {}", n)),
-            DataOperator::GreaterThanFloat(n) => Ok(format!("> {:?}", n)),
-            DataOperator::GreaterThanOrEqualFloat(n) => Ok(format!(">= {:?}", n)),
-            DataOperator::LessThanOrEqualFloat(n) => Ok(format!("<= {:?}", n)),
-            DataOperator::LessThanFloat(n) => Ok(format!("< {:?}", n)),
+            DataOperator::GreaterThanFloat(n) => Ok(format!("> {}", float_to_querystring(*n))),
+            DataOperator::GreaterThanOrEqualFloat(n) => Ok(format!(">= {}", float_to_querystring(*n))),
+            DataOperator::LessThanOrEqualFloat(n) => Ok(format!("<= {}", float_to_querystring(*n))),
+            DataOperator::LessThanFloat(n) => Ok(format!("< {}", float_to_querystring(*n))),
             DataOperator::ExactDatetime(d) => Ok(format!("= {}", d.to_rfc3339())),
             DataOperator::AfterDatetime(d) => Ok(format!("> {}", d.to_rfc3339())),
             DataOperator::AtOrAfterDatetime(d) => Ok(format!(">= {}", d.to_rfc3339())),
@@ -583,5 +583,15 @@ impl<'a> DataOperator<'a> {
                 ))
             }
         }
+    }
+}
+
+/// Formats a float for STAMQL: plain decimal notation (the query language has no exponent syntax), always with a decimal point so it reads back as a float
+fn float_to_querystring(n: f64) -> String {
+    let s = format!("{}", n);
+    if s.contains('.') || !n.is_finite() {
+        s
+    } else {
+        s + ".0"
     }
 }
